@@ -240,6 +240,9 @@ func c30RunHistory(t *testing.T, cfg c30Cfg, hist []c30Ev, keepLog bool) (res c3
 				if real != m.SC[i].Pending {
 					fail("dial-activity", "after %s: connection attempt of subchannel %d in progress = %v, the events so far require %v", ev, i, real, m.SC[i].Pending)
 				}
+				if w.dials[i] != m.Dials[i] {
+					fail("dial-activity", "after %s: %d connection attempts were started for address %d so far, the events require %d", ev, w.dials[i], i, m.Dials[i])
+				}
 			}
 			// (3) channel state: most recently published state, allowed changes, watcher
 			if x.ExitedIdle {
@@ -329,7 +332,7 @@ func c30RunHistory(t *testing.T, cfg c30Cfg, hist []c30Ev, keepLog bool) (res c3
 			switch e.Kind {
 			case c30EvExitIdle:
 				cc.Connect()
-			case c30EvConnect, c30EvShutdown, c30EvConnFail, c30EvConnOK:
+			case c30EvConnect, c30EvShutdown, c30EvConnFail, c30EvConnOK, c30EvUpdAddrs:
 				cmd := &c30Cmd{Kind: e.Kind, I: e.I}
 				w.mu.Lock()
 				switch e.Kind {
@@ -489,7 +492,7 @@ func TestVerif_C30_StatesE4(t *testing.T) {
 		}
 		rule = append(rule, fmt.Sprintf("%v: every history of exactly %d events%s", p.cfg, p.depth, sy))
 	}
-	r.Rule(P, "event histories on a fresh real grpc.ClientConn (manual resolver with 1-2 addresses, recording LB policy with one SubConn per address, scripted blocking dialer, raw HTTP/2 server peers, idle timeout 2s, constant backoff 1s) inside a synctest bubble; alphabet {cc.Connect, policy sc[i].Connect (dial then waits for the script), policy sc[i].Connect with the dial failing / succeeding at once (IDLE subchannels only; two updates in one step), policy sc[i].Shutdown, dial[i] succeeds, dial[i] fails, dial[i] succeeds but the server closes without sending its HTTP/2 preface, server[i] GOAWAY, server[i] closes, advance 600ms, advance idle timeout, cc.Close}; only events applicable per the reference model (the first event of every history is necessarily cc.Connect, a time step or cc.Close: a fresh channel is idle); policy modes manual (acts only on scripted commands) / auto (ExitIdle connects every IDLE subchannel, the listener reconnects on IDLE). "+strings.Join(rule, "; ")+". The oracle is evaluated after every event (at quiescence). Non-trivial = distinct histories in which at least one connection attempt was resolved and at least 3 subchannel updates were checked")
+	r.Rule(P, "event histories on a fresh real grpc.ClientConn (manual resolver with 1-2 addresses, recording LB policy with one SubConn per address, scripted blocking dialer, raw HTTP/2 server peers, idle timeout 2s, constant backoff 1s) inside a synctest bubble; alphabet {cc.Connect, policy sc[i].Connect (dial then waits for the script), policy sc[i].Connect with the dial failing / succeeding at once (IDLE subchannels only; two updates in one step), policy sc[i].Shutdown, policy cc.UpdateAddresses(sc[i], a different one-address list), dial[i] succeeds, dial[i] fails, dial[i] succeeds but the server closes without sending its HTTP/2 preface, server[i] GOAWAY, server[i] closes, advance 600ms, advance idle timeout, cc.Close}; only events applicable per the reference model (the first event of every history is necessarily cc.Connect, a time step or cc.Close: a fresh channel is idle); policy modes manual (acts only on scripted commands) / auto (ExitIdle connects every IDLE subchannel, the listener reconnects on IDLE). "+strings.Join(rule, "; ")+". The oracle is evaluated after every event (at quiescence). Non-trivial = distinct histories in which at least one connection attempt was resolved and at least 3 subchannel updates were checked")
 
 	var evals, nontriv, updates, tfidle, postshut, chanchk, watchobs int64
 	subTrans, chanTrans := map[string]int64{}, map[string]int64{}
